@@ -627,7 +627,7 @@ func (c *compiler) compile(tok *token) []instruction {
 			res = append(res, instruction{Code: code, A: reg(len(args)), B: reg(ellipsis), C: reg(tok.Tokens[callReturns].Int())})
 		} else {
 			fnc := c.compile(tok.Tokens[callName])
-			if tok.Tokens[callName].Symbol == "(name)" {
+			if tok.Tokens[callName].Symbol == "(name)" && fnc[0].Code == codeGlobalGet { // a local is never a type
 				typ := c.Globals.Read(int(fnc[0].A))
 				if typ.t == typeType {
 					res = append(res, instruction{Code: codeConvert, A: reg(typ.Int())})
